@@ -2,6 +2,7 @@ package main
 
 import (
 	"fmt"
+	"go/token"
 	"os"
 	"runtime/debug"
 	"go/types"
@@ -12,6 +13,7 @@ import (
 )
 
 type modTarget struct {
+	GhostVar string // a ghost scalar (State.Ghost key)
 	Comp  string
 	So    Sort
 	Ref   *Term // nil: every object
@@ -88,6 +90,21 @@ func (x *Exec) modTargets(env *Env, item string) ([]modTarget, error) {
 	item = strings.TrimSpace(item)
 	if item == "heap" || item == "everything" {
 		return []modTarget{{All: true}}, nil
+	}
+	if strings.HasPrefix(item, "$") {
+		gv, ok := x.cs.GhostVars[item[1:]]
+		if !ok {
+			return nil, fmt.Errorf("unknown ghost var %s", item)
+		}
+		ty, err := x.prog.LookupType(gv.Type, env.pkg)
+		if err != nil {
+			return nil, err
+		}
+		var out []modTarget
+		for _, sl := range x.u.Layout(ty) {
+			out = append(out, modTarget{GhostVar: "var." + gv.Name + sl.Suffix, So: sl.So})
+		}
+		return out, nil
 	}
 	if strings.HasPrefix(item, "elems(") && strings.HasSuffix(item, ")") {
 		e, err := ParseExpr(item[6 : len(item)-1])
@@ -173,6 +190,10 @@ func (x *Exec) modTargets(env *Env, item string) ([]modTarget, error) {
 		}
 		return x.mapTargets(types.NewMap(kt, vt), nil), nil
 	}
+	if item == "chanlog" {
+		// the ghost logs of all channels
+		return []modTarget{{Comp: "GF$chan$sent", So: ArrSort(SInt, SInt)}, {Comp: "GF$chan$last%tag", So: ArrSort(SInt, SInt)}, {Comp: "GF$chan$last%val", So: ArrSort(SInt, SInt)}}, nil
+	}
 	if strings.HasPrefix(item, "ghostall(") && strings.HasSuffix(item, ")") {
 		// ghostall(T.$f): the ghost field f of every object of type T
 		inner := item[9 : len(item)-1]
@@ -228,6 +249,18 @@ func (x *Exec) modTargets(env *Env, item string) ([]modTarget, error) {
 		owner := types.Unalias(xv.T)
 		if p, ok := owner.Underlying().(*types.Pointer); ok {
 			owner = p.Elem()
+		}
+		if classify(owner) == KIface {
+			// the declared owner may be an embedded interface
+			for k := range x.cs.Ghosts {
+				g := &x.cs.Ghosts[k]
+				if g.Name == sel.Name[1:] {
+					if gt, err := x.prog.LookupType(g.Owner, env.pkg); err == nil && types.IsInterface(gt) && !types.Identical(types.Unalias(gt), owner) && types.AssignableTo(owner, gt) {
+						owner = types.Unalias(gt)
+						break
+					}
+				}
+			}
 		}
 		var out []modTarget
 		var r Term
@@ -315,8 +348,14 @@ func (x *Exec) havocTargets(st *State, ts []modTarget) {
 	u := x.u
 	for _, t := range ts {
 		switch {
+		case t.GhostVar != "":
+			st.Ghost[t.GhostVar] = u.Fresh("ghost$"+t.GhostVar+".havoc", t.So)
 		case t.All:
-			x.havocAll(st)
+			if x.curCallFrame != nil {
+				x.havocAllAtCall(x.curCallFrame, st, x.curCallArgs)
+			} else {
+				x.havocAll(st)
+			}
 		case t.Scalar:
 			st.Heap[t.Comp] = u.Fresh(t.Comp+".havoc", t.So)
 		case t.Ref == nil:
@@ -423,6 +462,7 @@ func VerifyFunction(prog *Program, cs *Contracts, fn *ssa.Function, fc *FuncCont
 		u.Assume(g)
 		u.Trust("axiom: " + ax.Text)
 	}
+	x.siteTags = sourceOrderTags(fn)
 	fr := x.newFrame(fn, nil)
 	fr.top = true
 	fr.fc = fc
@@ -437,6 +477,10 @@ func VerifyFunction(prog *Program, cs *Contracts, fn *ssa.Function, fc *FuncCont
 	for _, fv := range fn.FreeVars {
 		v := u.FreshVal("free."+fv.Name(), fv.Type())
 		u.assumeValExisting(st, v)
+		if len(v.S) == 1 {
+			// a free variable is the address of a captured variable: never nil
+			u.Assume(Neq(v.S[0], IntLit(0)))
+		}
 		fr.regs[fv] = v
 	}
 	fr.entry = st.Clone()
@@ -592,4 +636,105 @@ func (x *Exec) frameObligations(fr *Frame, penv *Env, r ret, ri int) error {
 		x.u.AddObligation(x.topName, "frame."+name, r.pos, x.labels, fmt.Sprintf("%s changes only where modifies allows", name), r.st.PC, goal)
 	}
 	return nil
+}
+
+// VerifyLemma proves a closed formula of the contract language (spec functions, quantifiers) on its own.
+func VerifyLemma(prog *Program, cs *Contracts, lm *Lemma) (res *FuncResult) {
+	name := "lemma." + lm.Name
+	u := NewUnit(name, lm.Mode, prog.Fset)
+	fc := &FuncContract{Key: name, Pkg: lm.Pkg, Mode: lm.Mode, File: lm.Clause.File, Props: lm.Clause.Labels,
+		Loops: map[int][]*Clause{}, Waive: map[string]bool{}, CallInv: map[string][]*Clause{}, CallAssert: map[string][]*Clause{}, CallWitness: map[string][]LetDef{}}
+	res = &FuncResult{Func: name, Key: name, Mode: lm.Mode, Unit: u, Contract: fc}
+	x := &Exec{u: u, prog: prog, cs: cs, topFC: fc, topName: name, closures: map[string]*Closure{}, labels: lm.Clause.Labels,
+		calls: map[string]int{}, compInt: map[string]intInfo{}, loopEff: map[string]*loopEffects{}, callSeen: map[string]bool{}}
+	res.X = x
+	defer func() {
+		if r := recover(); r != nil {
+			if ee, ok := r.(*EngineError); ok {
+				res.Err = ee
+				return
+			}
+			res.Err = engineErr("%s: internal error: %v", name, r)
+		}
+	}()
+	st := &State{PC: True, Vars: map[string]Val{}, Heap: map[string]Term{}, Snap: map[string]*State{}, Ghost: map[string]Term{}}
+	st.Alloc = u.Declare("alloc@0", SInt)
+	u.epochAlloc[0] = st.Alloc
+	env := &Env{x: x, st: st, old: st, names: map[string]Val{}}
+	if pk, ok := prog.ByPath[lm.Pkg]; ok {
+		env.pkg = pk.Types
+	}
+	g, err := env.Bool(lm.Clause.E)
+	if err != nil {
+		res.Err = engineErr("lemma %s: %v", lm.Name, err)
+		return
+	}
+	u.AddObligation(name, "lemma", 0, lm.Clause.Labels, lm.Clause.Text, True, g)
+	return
+}
+
+// sourceOrderTags numbers the call sites of fn by callee ("Recv.Name#k") in source order, so that the tags used by
+// "call X#k assert" do not depend on the order in which the engine happens to visit the blocks.
+func sourceOrderTags(fn *ssa.Function) map[ssa.Instruction]string {
+	type site struct {
+		ins  ssa.Instruction
+		what string
+		pos  token.Pos
+		seq  int
+	}
+	var sites []site
+	n := 0
+	for _, b := range fn.Blocks {
+		for _, ins := range b.Instrs {
+			ci, ok := ins.(ssa.CallInstruction)
+			if !ok {
+				continue
+			}
+			c := ci.Common()
+			what := ""
+			switch {
+			case c.IsInvoke():
+				what = recvTypeName(c.Value.Type()) + c.Method.Name()
+			case c.StaticCallee() != nil && c.StaticCallee().Parent() == nil:
+				callee := c.StaticCallee()
+				what = callee.Name()
+				if r := callee.Signature.Recv(); r != nil {
+					what = recvTypeName(r.Type()) + what
+				}
+			default:
+				// dynamic call through a field or a named function type
+				if ld, ok := c.Value.(*ssa.UnOp); ok {
+					if fa, ok := ld.X.(*ssa.FieldAddr); ok {
+						owner := fa.X.Type().Underlying().(*types.Pointer).Elem()
+						if nn, ok := types.Unalias(owner).(*types.Named); ok {
+							what = nn.Obj().Name() + "." + structOf(owner).Field(fa.Field).Name()
+						}
+					}
+				}
+				if what == "" {
+					if nn, ok := types.Unalias(c.Value.Type()).(*types.Named); ok {
+						what = nn.Obj().Name()
+					}
+				}
+			}
+			if what == "" {
+				continue
+			}
+			n++
+			sites = append(sites, site{ins, what, ins.Pos(), n})
+		}
+	}
+	sort.SliceStable(sites, func(i, j int) bool {
+		if sites[i].pos != sites[j].pos {
+			return sites[i].pos < sites[j].pos
+		}
+		return sites[i].seq < sites[j].seq
+	})
+	cnt := map[string]int{}
+	out := map[ssa.Instruction]string{}
+	for _, s := range sites {
+		cnt[s.what]++
+		out[s.ins] = fmt.Sprintf("%s#%d", s.what, cnt[s.what])
+	}
+	return out
 }
